@@ -211,6 +211,15 @@ def build_trace(case):
             if not case.get("host_late"):       # host_late traces hold kernel (Exec) slices only: nothing precedes them
                 ranks[r].dev_event(f"{name} Cmpt Prep", scenario.TID_PREP, ts5, extra)
             ranks[r].dev_event(f"{name} Cmpt Exec", scenario.TID_EXEC, ts5, extra)
+            if case.get("user_cat") and (len(ranks[r].events) % 3 == 0):
+                # the trace writer tagged this kernel with a category of its own (a top-level `cat` on B and E)
+                b_ev, e_ev = ranks[r].events[-1]
+                b_ev["cat"] = e_ev["cat"] = "user_kernel"
+            if case.get("two_streams") and (len(ranks[r].events) % 2 == 0):
+                # a second compute stream of the same device: a short kernel of the same name running INSIDE this one
+                x2 = x / 4 if x >= 1 else x
+                ts5b = [t0 + p + x / 4, t0 + p + x / 4, t0 + p + x / 4, t0 + p + x / 4 + x2, t0 + p + x / 4 + x2 + 0.25]
+                ranks[r].dev_event(f"{name} Cmpt Exec", scenario.TID_EXEC + 7, ts5b, extra)
             t = ts5[4]
         # host_late: the host slice starts after the first kernel has begun, so the earliest event that the stages
         # behind compute_utilization see is a kernel slice
@@ -316,6 +325,9 @@ def oracle(case, res):
     ks = kernel_slices(res)
     # every kernel slice of the input is in the exported trace (it is what the csv and the counters speak about)
     n_in = sum(len(k) for k in case["ranks"])
+    if case.get("two_streams"):
+        n_in = None         # the inner kernels are added by build_trace: count the input slices instead
+        n_in = sum(1 for evs in build_trace(case).values() for e in evs if e["ph"] == "B" and e["name"].endswith(EXEC))
     if len(ks) != n_in:
         return ("util-kernel-slice-missing", f"the input has {n_in} kernel slices, the exported trace has {len(ks)} "
                                              f"(the csv and the PT Active counters cover slices that are not exported)")
@@ -606,7 +618,8 @@ def rand_case(ctx: Ctx, i):
         ranks.append(ks)
     return {"soc": rng.choice([256, 512, 1024]), "core": rng.choice([512, 1024, 1024, 2048, 1100, 800]),
             "argv": ARGVS[i % len(ARGVS)], "dev_epochs": [rng.randrange(0, 1 << 32, 1024) for _ in range(R)],
-            "log": log, "ranks": ranks, "host_late": rng.random() < 0.35, "decoy": rng.random() < 0.15}
+            "log": log, "ranks": ranks, "host_late": rng.random() < 0.35, "decoy": rng.random() < 0.15,
+            "user_cat": rng.random() < 0.25, "two_streams": rng.random() < 0.2}
 
 
 def gen_cases(ctx: Ctx):
